@@ -4,84 +4,6 @@ import (
 	"github.com/karagenc/socket.io-go/parser"
 )
 
-func verifSymName(maxLen int) string {
-	n := verifChoose(0, maxLen)
-	s := verifString(n)
-	for i := 0; i < n; i++ {
-		verifAssume(verifAlpha(s[i]))
-	}
-	return s
-}
-
-// verifRefHeader renders the Socket.IO v5 header <type>[<n>-][<nsp>,][<id>] independently of the implementation.
-func verifRefHeader(typ parser.PacketType, attachments int, nsp string, id *uint64) []byte {
-	out := []byte{'0' + byte(typ)}
-	if typ == parser.PacketTypeBinaryEvent || typ == parser.PacketTypeBinaryAck {
-		out = append(out, verifDec(uint64(attachments))...)
-		out = append(out, '-')
-	}
-	if nsp != "" && nsp != "/" {
-		out = append(out, nsp...)
-		out = append(out, ',')
-	}
-	if id != nil {
-		out = append(out, verifDec(*id)...)
-	}
-	return out
-}
-
-// verifDec is a reference decimal printer (concrete digit count per path).
-func verifDec(v uint64) []byte {
-	if v == 0 {
-		return []byte{'0'}
-	}
-	var rev []byte
-	for v > 0 {
-		rev = append(rev, '0'+byte(v%10))
-		v /= 10
-	}
-	out := make([]byte, len(rev))
-	for i := range rev {
-		out[i] = rev[len(rev)-1-i]
-	}
-	return out
-}
-
-// verifHeaderRT encodes one header + JSON text with the real encodeString, checks the v5 layout against the reference
-// and parses it back with the real parseHeader.
-func verifHeaderRT(typ parser.PacketType, nsp string, id *uint64, att int, name string, text []byte) {
-	js := &verifModelJSON{text: text}
-	p := &Parser{json: js}
-	h := &parser.PacketHeader{Type: typ, Namespace: nsp, ID: id, Attachments: att}
-	var payload any = &[]any{"x"} // any non-empty value: the encoder stub writes `text`
-	enc, err := p.encodeString(h, payload)
-	verifAssert(err == nil, "encodeString does not fail")
-	ref := append(verifRefHeader(typ, att, nsp, id), text...)
-	verifAssert(verifEqBytes(enc, ref), "encoded header is <type>[<n>-][<nsp>,][<id>]<json> as Socket.IO v5 prescribes")
-
-	q := &Parser{json: js}
-	gh, buf, gname, err := q.parseHeader(enc)
-	verifAssert(err == nil, "a header produced by the encoder is accepted by the decoder")
-	if err != nil {
-		return
-	}
-	verifAssert(gh.Type == typ, "packet type round-trips")
-	wantNsp := nsp
-	if wantNsp == "" {
-		wantNsp = "/"
-	}
-	verifAssert(gh.Namespace == wantNsp, "namespace round-trips ('' and '/' both mean '/')")
-	if id == nil {
-		verifAssert(gh.ID == nil, "absent ack id stays absent")
-	} else {
-		verifAssert(gh.ID != nil && *gh.ID == *id, "ack id round-trips")
-	}
-	verifAssert(gh.Attachments == att, "attachment count round-trips")
-	verifAssert(gname == name, "event name round-trips")
-	verifAssert(verifEqBytes(buf, text), "the JSON payload handed on is exactly the encoded JSON part")
-	verifReach("end")
-}
-
 // C09_header_fields: one header field symbolic at a time (their product would only multiply paths):
 // mode 0: every packet type x namespace "" / "/" / "/"+x (x: up to NS symbolic comma-free bytes);
 // mode 1: ack id symbolic (below 10^4 quick / 10^6 thorough: 1..4/6 digits) on EVENT and ACK, with and without namespace;
